@@ -152,7 +152,7 @@ prop("C05",
      bounds={"quick": "pools of 4..11 states per class; full pair/triple sets", "thorough": "same (the space is enumerated completely in both tiers)"},
      runs=[dict(name="h_proto", sources=["harness/h_proto.c"], profile="asan", args={}),
            # plain build: buffers whose lengths differ by 2^31..2^32+1 (a calloc'ed block that is never touched)
-           dict(name="h_proto_huge", sources=["harness/h_proto.c"], profile="plain2", args={"quick": ["--only=huge", "--workers=2"], "thorough": ["--only=huge", "--workers=2"]})],
+           dict(name="h_proto_huge", sources=["harness/h_proto.c"], profile="plain2", args={"quick": ["--only=huge", "--workers=2", "--hang-cpu=120"], "thorough": ["--only=huge", "--workers=2", "--hang-cpu=120"]})],
      deadline={"quick": 200, "thorough": 1200})
 
 
